@@ -24,6 +24,9 @@ CONDITIONS = shards("step", "c16.py", "h_step", {"comp": [0, 1], "op": list(rang
     shards("step-pool", "c16.py", "h_step_pool", {"comp": [0, 1], "op": [0, 1, 2, 3, 4, 5, 6, 7]}, timeout=400, samples=10,
            what="the same step with concrete boundary values (pool of seconds incl. 1440, 7200, 43200), so that float / modulo arithmetic in the code is executed, not solved",
            bound="8 second values x 3 day values x value kinds; 8 mutators x Event/Todo") + [
+    *shards("step-zoned", "c16.py", "h_step_zoned", {"comp": [0, 1], "op": [0, 1, 2, 3, 4, 5, 6, 7]}, timeout=600,
+            what="the step with real zoned values across a daylight-saving transition (Europe/Berlin, 2024-03-31) in the stored start, stored end or argument",
+            bound="kinds date/floating/UTC/zoned x noon of 3 days around the transition x 4 durations (0, 1 h, 1 d, 1 d 1 h); 8 mutators x Event/Todo"),
     X("forbidden", "c16.py", "h_forbidden", timeout=200, what="stored end AND DURATION: start/end/duration raise exactly InvalidCalendar", bound="same value ranges"),
     X("types", "c16.py", "h_types", timeout=100, what="wrong argument type => TypeError, component unchanged", bound="5 setters x 3 wrong kinds x Event/Todo"),
     X("journal", "c16.py", "h_journal", timeout=100, what="Journal: start == end == DTSTART, duration 0, missing start => IncompleteComponent", bound="same value ranges"),
